@@ -216,6 +216,9 @@ def move_to_top(rng, cfg, eps):
 
 # set by the runner: may descriptions switch the address table off (`use_id_table: false`)?
 ALLOW_NO_TABLE = False
+# set by the runner: may a mesh get an extra link between the two ends of a row?  (C09 speaks about plain meshes
+# and trees only: a row closed to a ring is outside its quantifier, and indeed has cyclic dependencies)
+EXPRESS_LINKS = True
 # set by the runner: sometimes give a router too few ports (rejected by floogen)
 SHORT_DEGREE = False
 # set by the runner: apply the spelling variations below (off for hand-built sweeps that need exact names)
@@ -443,7 +446,7 @@ def mesh_parts(rng, algo, nettype, alloc, m, n, rname, sides=None, partial_local
         conns.append({"src": ename, "dst": rname, "src_range": [[0, m - 1], [0, n - 1]],
                       "dst_range": [[0, m - 1], [0, n - 1]], "dst_dir": "Eject"})
     # G8: an express link between the two ends of a row (ID / SRC only), on the free West / East ports
-    if algo != "XY" and use_dirs and m >= 3 and "West" not in sides and "East" not in sides and rng.random() < 0.15:
+    if EXPRESS_LINKS and algo != "XY" and use_dirs and m >= 3 and "West" not in sides and "East" not in sides and rng.random() < 0.15:
         y = rng.randrange(n)
         conns.append({"src": rname, "src_idx": [0, y], "src_dir": "West", "dst": rname, "dst_idx": [m - 1, y], "dst_dir": "East"})
     # G7: an endpoint moved away from the grid by its own xy_id_offset (XY only)
